@@ -522,6 +522,35 @@ fn oracle(m: &HLib, ctx: &mut Ctx) -> Result<(), String> {
     if has_arr {
         ctx.label("array reference");
     }
+    // where the labels sit relative to the shapes of their own struct, and which shapes there are
+    for st in &m.structs {
+        for sh in &st.shapes {
+            ctx.label(match &sh.geom {
+                HGeom::Boundary(p) if p.len() == 5 && p.iter().all(|q| (q.0 == p[0].0 || q.0 == p[2].0) && (q.1 == p[0].1 || q.1 == p[2].1)) => "shape: rectangle boundary",
+                HGeom::Boundary(_) => "shape: polygon boundary",
+                HGeom::Box(_) => "shape: box",
+                HGeom::Path(p, _) if is_manhattan(p) => "shape: Manhattan path",
+                HGeom::Path(..) => "shape: non-Manhattan path",
+            });
+        }
+        for l in &st.labels {
+            let on = st.shapes.iter().filter(|s| s.layer == l.layer).collect::<Vec<_>>();
+            let hit = on.iter().filter(|s| s.contains(l.loc) == Some(true)).count();
+            let on_vertex = on.iter().any(|s| match &s.geom {
+                HGeom::Boundary(p) => p.contains(&l.loc),
+                HGeom::Box(p) => p.contains(&l.loc),
+                HGeom::Path(p, _) => p.contains(&l.loc),
+            });
+            ctx.label(match (hit, on_vertex) {
+                (0, _) if on.is_empty() => "label on a layer without shapes (annotation)",
+                (0, _) => "label outside every shape of its layer (annotation)",
+                (1, true) => "label on a vertex / path point of the shape it names",
+                (1, false) => "label inside or on an edge of the shape it names",
+                _ => "label naming several shapes",
+            });
+        }
+    }
+    ctx.label(&format!("{} structs", m.structs.len()));
     ctx.sample("hierarchical GDSII library", || format!("{:?}", m));
     let layers = lib.layers.read().map_err(|_| "layers lock")?;
     // cells by name
